@@ -2,6 +2,7 @@ package main
 
 import (
 	"fmt"
+	"go/token"
 	"go/types"
 	"strings"
 
@@ -58,6 +59,8 @@ var pureLib = map[string]string{
 	"time.Now": "", "time.Since": "", "(time.Time).Sub": "", "(time.Time).Add": "", "time.Sleep": "",
 	"context.WithCancel": "", "context.WithValue": "", "context.Background": "",
 	"sort.Strings": "havoc:string", "math.MaxInt64": "",
+	"github.com/samsarahq/go/oops.Wrapf": "nonnil-if-arg0", "github.com/samsarahq/go/oops.Errorf": "nonnil",
+	"log.Println": "", "log.Printf": "",
 }
 
 // pure interface methods (by interface method full name)
@@ -160,26 +163,7 @@ func (vc *FnVC) call(c ssa.CallInstruction, val *ssa.Call) {
 	}
 
 	pre := vc.cur
-	// call-site assertions of the caller's contract ("call NAME[#k] assert E"), checked before the call
-	if vc.ct != nil {
-		for _, ca := range vc.ct.CallAssert {
-			if ca.Callee != name || (ca.Ordinal != 0 && ca.Ordinal != ord) {
-				continue
-			}
-			vc.matchedSites["assert "+ca.Callee] = true
-			env := vc.newEnv(pre, vc.mem0)
-			env.resolve = vc.blockResolver(vc.curBlock, pre)
-			for i, a := range args {
-				env.names[fmt.Sprintf("arg%d", i)] = a
-			}
-			tv, err := env.tr(ca.C.E)
-			if err != nil {
-				panic(unsupported{fmt.Sprintf("call %s assert: %v", name, err)})
-			}
-			vc.oblige("assert", fmt.Sprintf("assert@%s#%d", name, ord), vc.b(), tv.t, c.Pos(), ca.C.Text)
-			vc.assume(vc.b(), tv.t)
-		}
-	}
+	vc.siteAsserts(name, ord, pre, args, c.Pos())
 	calleeGhosts := map[string]TV{}
 	// results
 	results := make([]TV, nres)
@@ -226,7 +210,7 @@ func (vc *FnVC) call(c ssa.CallInstruction, val *ssa.Call) {
 		set[nextComp] = true
 		var post *Mem
 		if all {
-			post = pre.havoc(nil, vc.keepSet())
+			post = pre.havoc(nil, vc.keepSetWithKeeps())
 			if _, isClosure := cc.Value.(*ssa.MakeClosure); !isClosure {
 				vc.protectCells(pre, post)
 			}
@@ -288,9 +272,12 @@ func (vc *FnVC) call(c ssa.CallInstruction, val *ssa.Call) {
 			if facts == "nonnil" && nres > 0 {
 				vc.assume("true", not(app("=", results[nres-1].t, "anil")))
 			}
+			if facts == "nonnil-if-arg0" && nres > 0 && len(args) > 0 {
+				vc.assume("true", app("=", app("=", results[nres-1].t, "anil"), app("=", args[0].t, "anil")))
+			}
 		} else {
 			vc.emit(fmt.Sprintf("; call %s#%d: no contract, havoc", name, ord))
-			vc.cur = pre.havoc(nil, vc.keepSet())
+			vc.cur = pre.havoc(nil, vc.keepSetWithKeeps())
 			if _, isClosure := cc.Value.(*ssa.MakeClosure); !isClosure {
 				vc.protectCells(pre, vc.cur)
 			}
@@ -316,6 +303,59 @@ func (vc *FnVC) call(c ssa.CallInstruction, val *ssa.Call) {
 			}
 			vc.tuples[val] = ts
 		}
+	}
+}
+
+// siteAsserts: call-site assertions of the caller's contract ("call NAME[#k] assert E"), checked before the call.
+func (vc *FnVC) siteAsserts(name string, ord int, pre *Mem, args []TV, pos token.Pos) {
+	if vc.ct == nil {
+		return
+	}
+	for _, ca := range vc.ct.CallAssert {
+		if ca.Callee != name || (ca.Ordinal != 0 && ca.Ordinal != ord) {
+			continue
+		}
+		vc.matchedSites["assert "+ca.Callee] = true
+		env := vc.newEnv(pre, vc.mem0)
+		env.resolve = vc.blockResolver(vc.curBlock, pre)
+		for i, a := range args {
+			env.names[fmt.Sprintf("arg%d", i)] = a
+		}
+		tv, err := env.tr(ca.C.E)
+		if err != nil {
+			panic(unsupported{fmt.Sprintf("call %s assert: %v", name, err)})
+		}
+		vc.oblige("assert", fmt.Sprintf("assert@%s#%d", name, ord), vc.b(), tv.t, pos, ca.C.Text)
+		vc.assume(vc.b(), tv.t)
+	}
+}
+
+// mapSite: map updates and deletes on a map loaded from a struct field are addressable sites
+// ("call mapupdate:<field> ..." / "call delete:<field> ...") for assertions and ghost updates.
+func (vc *FnVC) mapSite(kind string, m ssa.Value, args []TV, pos token.Pos) {
+	if vc.ct == nil {
+		return
+	}
+	u, ok := m.(*ssa.UnOp)
+	if !ok {
+		return
+	}
+	fa, ok := u.X.(*ssa.FieldAddr)
+	if !ok {
+		return
+	}
+	st := fa.X.Type().Underlying().(*types.Pointer).Elem().Underlying().(*types.Struct)
+	name := kind + ":" + st.Field(fa.Field).Name()
+	vc.callOrd[name]++
+	vc.siteAsserts(name, vc.callOrd[name], vc.cur, args, pos)
+	vc.pendingSite = name
+	vc.pendingArgs = args
+}
+
+func (vc *FnVC) mapSiteDone() {
+	if vc.pendingSite != "" {
+		vc.cur = vc.applyCallGhostsX(vc.pendingSite, vc.pendingArgs, nil, vc.cur, nil)
+		vc.pendingSite = ""
 	}
 }
 
@@ -528,6 +568,8 @@ func (vc *FnVC) builtin(b *ssa.Builtin, cc *ssa.CallCommon, val *ssa.Call) {
 	case "delete":
 		mt := cc.Args[0].Type().Underlying().(*types.Map)
 		m, k := vc.val(cc.Args[0]), vc.val(cc.Args[1])
+		vc.mapSite("delete", cc.Args[0], []TV{{t: m, ty: cc.Args[0].Type()}, {t: k, ty: cc.Args[1].Type()}}, cc.Pos())
+		defer vc.mapSiteDone()
 		d, _, l := vc.e.mapComps(mt)
 		had := app("select", app("select", vc.cur.get(d), m), k)
 		nl := app("ite", had, app("-", app("select", vc.cur.get(l), m), "1"), app("select", vc.cur.get(l), m))
